@@ -364,8 +364,17 @@ func (r *recorder) flush() {
 		NonTrivial: r.nontrivial, Hashed: len(r.hashes), Labels: r.labels, Excluded: r.excluded, Samples: r.samples,
 		Spaces: r.spaces, Exhaustive: r.exhaustive, Failed: r.failed, Notes: r.notes, WallS: time.Since(r.start).Seconds()}
 	base := filepath.Join(dir, fmt.Sprintf("%s.%d", r.sub, Shard()))
-	b, _ := json.Marshal(st)
-	_ = os.WriteFile(base+".json", b, 0o644)
+	b, err := json.Marshal(st)
+	if err != nil { // e.g. a sample holding a value JSON cannot carry: keep the counts
+		st.Samples = nil
+		st.Notes = append(append([]string{}, st.Notes...), "samples dropped: "+err.Error())
+		b, _ = json.Marshal(st)
+	}
+	// written under another name and renamed, so that a process that dies while writing leaves the previous
+	// statistics (or none) rather than half a file
+	if os.WriteFile(base+".json.tmp", b, 0o644) == nil {
+		_ = os.Rename(base+".json.tmp", base+".json")
+	}
 	hs := make([]uint64, 0, len(r.hashes))
 	for h := range r.hashes {
 		hs = append(hs, h)
